@@ -1,6 +1,6 @@
 import json, sys
 pid, n = sys.argv[1], sys.argv[2]
-tmpl = open('/verif/tools/seed_prompt.txt').read()
+tmpl = open(sys.argv[3] if len(sys.argv) > 3 else '/verif/tools/seed_prompt.txt').read()
 for line in open('/verif/properties.jsonl'):
     p = json.loads(line)
     if p['id'] == pid:
